@@ -551,8 +551,34 @@ pub fn search_c09(rng: &mut Rng, thorough: bool) -> SearchResult {
     r.rule = "random lists of 0..10 valid cells of mixed resolutions (incl. world and base cells) x targets -1..29 with total fan-out <= 4^8: output is the concatenation, in input order, of each input's descendants (resolution, ancestor, distinctness, length = sum of fan-outs); Err (and only then) when some input is finer than the target. non-trivial = lists with at least one cell strictly coarser than the target or a too-fine cell".into();
     for _ in 0..(if thorough { 60_000 } else { 8_000 }) {
         let n = rng.below(11);
-        let cells: Vec<u64> = (0..n).map(|_| { let q = random_res(rng); valid_cell(rng, q) }).collect();
-        let t = rng.range_i(-1, 29) as i32;
+        let mut cells: Vec<u64> = (0..n).map(|_| { let q = random_res(rng); valid_cell(rng, q) }).collect();
+        let mut t = rng.range_i(-1, 29) as i32;
+        // related neighbours in the list: the same cell twice in a row or apart, a cell followed by its last / first
+        // descendant at the target, the world cell followed by a base cell: each input counts on its own
+        if rng.chance(1, 3) {
+            let q = random_res(rng).min(27);
+            let c = valid_cell(rng, q);
+            t = (q + rng.range_i(0, 3) as i32).min(29);
+            let desc = api::cell_to_children(c, Some(t)).unwrap_or_default();
+            let mut rel: Vec<u64> = match rng.below(5) {
+                0 => vec![c, c],
+                1 => vec![c, *desc.last().unwrap_or(&c)],
+                2 => vec![c, *desc.first().unwrap_or(&c), c],
+                3 => vec![*desc.last().unwrap_or(&c), c, *desc.last().unwrap_or(&c)],
+                _ => { let x = *desc.last().unwrap_or(&c); vec![x, x, c] }
+            };
+            if rng.chance(1, 6) {
+                t = 0;
+                let base = a5::get_res0_cells().unwrap_or_default();
+                rel = vec![0, base[11], base[0], 0];
+            }
+            let at = rng.below(cells.len() as u64 + 1) as usize;
+            cells.retain(|&x| spec_resolution(x) <= t);
+            let at = at.min(cells.len());
+            for (i, x) in rel.into_iter().enumerate() {
+                cells.insert(at + i, x);
+            }
+        }
         let total: u64 = cells.iter().map(|&c| { let q = spec_resolution(c); if q <= t { fanout(q, t) } else { 0 } }).fold(0u64, |a, b| a.saturating_add(b));
         if total > 65_536 {
             continue;
@@ -778,6 +804,32 @@ pub fn search_c10(rng: &mut Rng, thorough: bool) -> SearchResult {
         }
         r.count(&format!("input_len_{}", (a.len() as f64).log2().floor() as u32));
     }
+    // the longest chain of merges: the siblings of one root-to-leaf path at every level plus the complete group at the
+    // deepest level collapse, level by level (30 passes), into the world cell
+    for _ in 0..(if thorough { 12 } else { 4 }) {
+        let leaf = valid_cell(rng, 29);
+        let mut input: Vec<u64> = Vec::new();
+        let mut cur = leaf;
+        input.extend(api::cell_to_children(api::cell_to_parent(leaf, None).unwrap_or(0), None).unwrap_or_default());
+        for q in (0..29).rev() {
+            // q = resolution of the ancestor whose siblings are added
+            let anc = api::cell_to_parent(cur, Some(q)).unwrap_or(0);
+            let up = api::cell_to_parent(anc, None).unwrap_or(0);
+            for sib in api::cell_to_children(up, None).unwrap_or_default() {
+                if sib != anc {
+                    input.push(sib);
+                }
+            }
+            cur = anc;
+        }
+        rng.shuffle(&mut input);
+        r.evaluations += 1;
+        r.nontrivial += 1;
+        let out = api::compact(&input).unwrap_or_default();
+        if out != vec![0] {
+            r.viol("compact-maximal", format!("a set of {} cells that merges level by level from resolution 29 up to the world cell (leaf {:x}) compacts to {} cells {:x?} instead of [0]", input.len(), leaf, out.len(), &out[..out.len().min(14)]));
+        }
+    }
     r.sample("compact(5 quintants of face 0 ++ base cells 1..11) (D2 regression) must be [world]".into());
     {
         let base = a5::get_res0_cells().unwrap();
@@ -906,6 +958,27 @@ pub fn search_c14(rng: &mut Rng, thorough: bool) -> SearchResult {
             let t = rng.range_i(0, 29) as i32;
             if let Some(w) = call(&mut r, "lonlat_to_cell", false, &mut || a5::lonlat_to_cell(a5::LonLat::new(lon, lat), t).map(|x| vec![(x, Some(t))])) {
                 r.viol("total:lonlat_to_cell", format!("lonlat_to_cell(({}, {}), {}): {}", lon, lat, t, w));
+            }
+        }
+    }
+    // huge finite longitudes under a deadline: the call must come back (a reduction by repeated subtraction never does)
+    for &lon in &[1e15, -1e18, 1e300, f64::MAX, -f64::MAX, 3.6e17 + 12.5] {
+        let t = rng.range_i(0, 29) as i32;
+        let lat = 120.0 * rng.unit() - 60.0;
+        eprintln!("CALL lonlat_to_cell(({:e}, {}), {}) under a 10 s deadline", lon, lat, t);
+        let (tx, rx) = std::sync::mpsc::channel();
+        std::thread::spawn(move || {
+            let res = catch_unwind(move || a5::lonlat_to_cell(a5::LonLat::new(lon, lat), t));
+            let _ = tx.send(match res { Ok(Ok(_)) => "ok", Ok(Err(_)) => "err", Err(_) => "panic" });
+        });
+        r.evaluations += 1;
+        r.nontrivial += 1;
+        match rx.recv_timeout(std::time::Duration::from_secs(10)) {
+            Ok("panic") => r.viol("total:lonlat_to_cell", format!("lonlat_to_cell(({:e}, {}), {}): panic", lon, lat, t)),
+            Ok(_) => {}
+            Err(_) => {
+                r.viol("total:termination", format!("lonlat_to_cell(({:e}, {}), {}) did not return within 10 s", lon, lat, t));
+                break; // the stuck thread keeps a core busy until the process exits: one witness is enough
             }
         }
     }
